@@ -196,11 +196,13 @@ Definition opt_eqb (a b : option nat) : bool :=
 Definition resolution_sample_ok (prog : list stmt) : bool :=
   let '(m, st) := parse_forest prog in
   let spec := spec_resolve prog in
+  (* the module scope creates its declared names first, then one unbound symbol per free name *)
+  let ndecl := match module_psk prog with PSk fresh _ _ _ => length fresh end in
   (* a reference is unresolvable per ECMA-262 exactly when the parser bound it to an
-     unbound (pinned) symbol of the module scope *)
+     unbound symbol of the module scope *)
   list_eqb Bool.eqb
     (map (fun xE => match env_get (snd xE) (fst xE) with
-                    | Some s => negb (mem_nat s (sc_members m) && ns_eqb (sy_ns (getsym st s)) NsPinned)
+                    | Some s => negb (Nat.leb ndecl s && Nat.ltb s (length (sc_members m)))
                     | None => false
                     end) (parser_refs prog))
     (map (fun o => match o with Some _ => true | None => false end) spec)
